@@ -144,6 +144,14 @@ def run_families(name: str, cases: List[Case], rng: random.Random,
     for path, err in rep["coq_errors"][:2]:
         violations.append({"kind": "correspondence", "signature": None,
                            "what": f"correspondence file {os.path.basename(path)} failed to evaluate", "log": err[-1500:]})
+    # the builder compares the key set of a record-class validator it built with the fields the class declares (that
+    # is what the term lists): a difference is the implementation's schema derivation, not a harness problem
+    for c_, msg_ in rep["harness_errors"]:
+        if "ClassV key mismatch" in msg_:
+            violations.append({"kind": "oracle", "signature": f"{name}:record-class-keys",
+                               "what": "the validator built for a record class does not have the class's fields as its keys: " + msg_[:300],
+                               "replay_case": c_.to_json()})
+            break
     nhe = len(rep["harness_errors"])
     if nhe > max(5, len(cases) // 10):
         c, msg = rep["harness_errors"][0]
@@ -216,7 +224,13 @@ def generic_replay(path: str, oracle: Callable[[Case], Optional[dict]]) -> int:
         print(f"replay file names a broken obligation, no input: {j.get('what')}")
         return 1
     c = case_from_json(cj)
-    observe(c)
+    try:
+        observe(c)
+    except HarnessError as e:
+        if "ClassV key mismatch" in str(e):
+            print("property violated: the validator built for a record class does not have the class's fields as its keys:", e)
+            return 1
+        raise
     r = oracle(c)
     print("observed:", coq(c.obs))
     if r:
